@@ -15,6 +15,12 @@ package server
 //
 // The run is synchronous and deterministic. Observed: the bytes of every
 // conn.Write call, in order.
+//
+// A third of the cases serve two or three connections one after the other on
+// ONE engine, so that the later ones run on the pooled tcpStream (and the slab)
+// the earlier ones handed back — most of the earlier ones ending in a failed
+// write or a failed SetDeadline with replies still staged. Every connection's
+// output must be its own: frames carrying the IDs of its own queries only.
 
 import (
 	"encoding/binary"
@@ -98,9 +104,13 @@ func (c *vC10Conn) RemoteAddr() net.Addr               { return &net.TCPAddr{IP:
 
 type vC10ConnHandler struct {
 	scripts map[uint16]*vC10Script
+	stream  *tcpStream // the pooled stream the connection being served runs on
 }
 
 func (h *vC10ConnHandler) ServeRaw(w middleware.Transport, raw []byte, _ time.Time) bool {
+	if j, ok := w.(*tcpJob); ok {
+		h.stream = j.stream
+	}
 	s := &vC10Script{ok: true}
 	if len(raw) >= 2 {
 		if x := h.scripts[binary.BigEndian.Uint16(raw)]; x != nil {
@@ -171,6 +181,222 @@ func vC10Ints(xs []int) string {
 	return "[" + strings.Join(p, ";") + "]"
 }
 
+// vC10ConnSpec is one generated connection: input, I/O scripts and what goes into the Coq case.
+type vC10ConnSpec struct {
+	nf, inputLen, junkLen int
+	sweep                 bool
+	kinds                 map[string]int
+	ids                   map[uint16]bool
+	framesCoq, scriptsCoq []string
+	junk                  []byte
+	reads, budgets        []int
+	arms                  []bool
+	conn                  *vC10Conn
+	clean                 bool // nothing scripted to fail, no junk, no panic
+}
+
+// vC10GenConn generates one connection; its handler scripts are added to h.
+// failing: make a failed write / SetDeadline with replies staged likely.
+func vC10GenConn(g *vC10Gen, h *vC10ConnHandler, allowSweep, failing bool) *vC10ConnSpec {
+	r := g.r
+	cs := &vC10ConnSpec{kinds: map[string]int{}, ids: map[uint16]bool{}, clean: true}
+	nf := 1 + r.Intn(10)
+	if r.Intn(6) == 0 || (failing && r.Intn(2) == 0) {
+		nf = 10 + r.Intn(30) // a long pipelined burst
+	}
+	// a sweep: one pipelined burst, answered out of the fill buffer with no flush in
+	// between, whose staged bytes (prefix + payload, cumulatively) land on the drain
+	// buffer's size -3..+3 at some reply
+	sweep := allowSweep && r.Intn(4) == 0
+	sweepAt, sweepDelta, staged := 0, 0, 0
+	if sweep {
+		nf = 2 + r.Intn(5)
+		sweepAt = 1 + r.Intn(nf-1)
+		sweepDelta = r.Intn(7) - 3
+	}
+	var frames [][]byte
+	var input []byte
+	kinds := cs.kinds
+	for i := 0; i < nf; i++ {
+		id := g.id()
+		cs.ids[id] = true
+		pkt := g.packet(id)
+		for len(pkt) < 12 {
+			pkt = g.packet(id)
+		}
+		switch r.Intn(30) {
+		case 0: // large class, still within the fill buffer
+			pkt = append(pkt, g.payload(id, tcpSmallFrame-len(pkt)+1+r.Intn(1500))...)
+			kinds["q-large"]++
+		case 1: // larger than the fill buffer: read straight into the slab
+			pkt = append(pkt, g.payload(id, tcpFillSize+r.Intn(3000))...)
+			kinds["q-over-fill"]++
+		case 2:
+			pkt = append(pkt, g.payload(id, tcpSmallFrame-len(pkt))...)
+			kinds["q-small-max"]++
+		}
+		sc := &vC10Script{ok: r.Intn(14) != 0, main: g.streamHops(id)}
+		if nf >= 10 && r.Intn(4) != 0 {
+			sc = &vC10Script{ok: true, main: []vC10Hop{{vC10HopWrite, g.payload(id, 200+r.Intn(700))}}}
+		}
+		if sweep {
+			pkt = pkt[:12:12]
+			copy(pkt[2:], []byte{byte(r.Intn(2)), 0, 0, 1, 0, 0, 0, 0, 0, 0})
+			pkt = append(pkt, g.payload(id, r.Intn(12))...)
+			size := 0
+			switch {
+			case i < sweepAt:
+				room := tcpDrainSize - staged - 2*(sweepAt-i) - 64*(sweepAt-i)
+				size = 32 + r.Intn(max(1, room/(sweepAt-i)))
+			case i == sweepAt:
+				size = tcpDrainSize + sweepDelta - staged - 2
+			default:
+				size = 12 + r.Intn(300)
+			}
+			if size < 2 {
+				size = 2
+			}
+			if i <= sweepAt {
+				staged += 2 + size
+			}
+			sc = &vC10Script{ok: true, main: []vC10Hop{{vC10HopWrite, g.payload(id, size)}}}
+			kinds[fmt.Sprintf("sweep-drain%+d", sweepDelta)] = 1
+		}
+		for _, hp := range sc.main {
+			if hp.kind == vC10HopPanic {
+				cs.clean = false
+			}
+		}
+		h.scripts[id] = sc
+		frames = append(frames, pkt)
+		cs.framesCoq = append(cs.framesCoq, vC10RLE(pkt))
+		cs.scriptsCoq = append(cs.scriptsCoq, fmt.Sprintf("(%d,%s)", id, sc.coq()))
+		input = binary.BigEndian.AppendUint16(input, uint16(len(pkt)))
+		input = append(input, pkt...)
+	}
+	var junk []byte
+	switch r.Intn(12) {
+	case 0:
+		junk = []byte{0}
+		kinds["junk-half-prefix"]++
+	case 1:
+		junk = []byte{0, 5, 1, 2, 3, 4, 5}
+		kinds["junk-subheader-frame"]++
+	case 2:
+		junk = append([]byte{0, 40}, g.payload(9, 17)...)
+		kinds["junk-partial-body"]++
+	case 3:
+		junk = append([]byte{0x30, 0x00}, g.payload(9, 5000)...)
+		kinds["junk-partial-large"]++
+	}
+	input = append(input, junk...)
+
+	var reads []int
+	switch r.Intn(5) {
+	case 0: // everything the kernel has, each time
+	case 1:
+		for i := 0; i < 400; i++ {
+			reads = append(reads, r.Intn(8))
+		}
+		kinds["read-dribble"]++
+	case 2:
+		for i := 0; i < 200; i++ {
+			reads = append(reads, 1+r.Intn(120))
+		}
+		kinds["read-chunks"]++
+	case 3:
+		for i := 0; i < 60; i++ {
+			reads = append(reads, []int{1, 2, 3, 13, 14, 15, 30, 4096, 9000}[r.Intn(9)])
+		}
+		kinds["read-mixed"]++
+	default:
+		// frame by frame, as a client that waits for each answer would send
+		for _, p := range frames {
+			reads = append(reads, 2+len(p))
+		}
+		kinds["read-per-frame"]++
+	}
+	if sweep || (failing && r.Intn(2) == 0) {
+		reads = nil // the whole burst is in the fill buffer: replies pile up in the drain
+	}
+	var budgets []int
+	if !sweep && (r.Intn(5) == 0 || (failing && r.Intn(4) != 0)) {
+		nb := 1 + r.Intn(6)
+		if failing {
+			nb = r.Intn(2)
+		}
+		for i := 0; i < nb; i++ {
+			budgets = append(budgets, 0)
+		}
+		budgets = append(budgets, 1+[]int{0, 1, 2, 3, 50, 5000}[r.Intn(6)])
+		kinds["write-fails"]++
+	}
+	var arms []bool
+	if !sweep && r.Intn(7) == 0 {
+		for i := 0; i < r.Intn(8); i++ {
+			arms = append(arms, true)
+		}
+		arms = append(arms, false)
+		if r.Intn(2) == 0 {
+			arms = append(arms, false, false, false, false, false, false)
+		}
+		kinds["setdeadline-fails"]++
+	}
+	cs.nf, cs.sweep, cs.junk, cs.reads, cs.budgets, cs.arms = nf, sweep, junk, reads, budgets, arms
+	cs.inputLen, cs.junkLen = len(input), len(junk)
+	if len(junk) > 0 || len(budgets) > 0 || len(arms) > 0 {
+		cs.clean = false
+	}
+	cs.conn = &vC10Conn{in: append([]byte(nil), input...), reads: append([]int(nil), reads...), budgets: append([]int(nil), budgets...), arms: append([]bool(nil), arms...)}
+	return cs
+}
+
+// coqFields: frames junk scripts reads budgets arms writes
+func (cs *vC10ConnSpec) coqFields() string {
+	var wr, armsCoq []string
+	for _, w := range cs.conn.writes {
+		wr = append(wr, vC10RLE(w))
+	}
+	for _, a := range cs.arms {
+		armsCoq = append(armsCoq, vC10Bool(a))
+	}
+	return fmt.Sprintf("[%s] %s [%s] %s %s [%s] [%s]", strings.Join(cs.framesCoq, ";"), vC10RLE(cs.junk),
+		strings.Join(cs.scriptsCoq, ";"), vC10Ints(cs.reads), vC10Ints(cs.budgets), strings.Join(armsCoq, ";"), strings.Join(wr, ";"))
+}
+
+func (cs *vC10ConnSpec) bytesOut() int {
+	total := 0
+	for _, w := range cs.conn.writes {
+		total += len(w)
+	}
+	return total
+}
+
+// foreign: what this connection's client received, cut into frames, must carry the IDs of
+// its own queries only; a clean connection's stream ends on a frame boundary.
+func (cs *vC10ConnSpec) foreign() string {
+	var wire []byte
+	for _, w := range cs.conn.writes {
+		wire = append(wire, w...)
+	}
+	for len(wire) >= 2 {
+		n := int(binary.BigEndian.Uint16(wire))
+		if len(wire) < 2+n {
+			break
+		}
+		if n >= 2 {
+			if id := binary.BigEndian.Uint16(wire[2:]); !cs.ids[id] {
+				return fmt.Sprintf("the client received a %d-byte frame with id %d, which is none of its queries", n, id)
+			}
+		}
+		wire = wire[2+n:]
+	}
+	if len(wire) > 0 && cs.clean {
+		return fmt.Sprintf("the client's stream ends with %d bytes that are no whole frame although nothing failed", len(wire))
+	}
+	return ""
+}
+
 func TestVerifC10Conn(t *testing.T) {
 	out := os.Getenv("VERIF_OUT")
 	if out == "" {
@@ -191,184 +417,90 @@ func TestVerifC10Conn(t *testing.T) {
 		plan := resourcePlan{tcpConns: 4, tcpSmallJobs: 2, tcpLargeJobs: 1}
 		e := newTCPEngine(h, "tcp", 0, plan)
 
-		nf := 1 + r.Intn(10)
-		if r.Intn(6) == 0 {
-			nf = 10 + r.Intn(30) // a long pipelined burst
+		nconn := 1
+		if r.Intn(3) == 0 {
+			nconn = 2 + r.Intn(2)
 		}
-		// a sweep: one pipelined burst, answered out of the fill buffer with no flush in
-		// between, whose staged bytes (prefix + payload, cumulatively) land on the drain
-		// buffer's size -3..+3 at some reply
-		sweep := r.Intn(4) == 0
-		sweepAt, sweepDelta, staged := 0, 0, 0
-		if sweep {
-			nf = 2 + r.Intn(5)
-			sweepAt = 1 + r.Intn(nf-1)
-			sweepDelta = r.Intn(7) - 3
-		}
-		var frames [][]byte
-		var framesCoq, scriptsCoq []string
-		var input []byte
-		kinds := map[string]int{}
-		for i := 0; i < nf; i++ {
-			id := g.id()
-			pkt := g.packet(id)
-			for len(pkt) < 12 {
-				pkt = g.packet(id)
-			}
-			switch r.Intn(30) {
-			case 0: // large class, still within the fill buffer
-				pkt = append(pkt, g.payload(id, tcpSmallFrame-len(pkt)+1+r.Intn(1500))...)
-				kinds["q-large"]++
-			case 1: // larger than the fill buffer: read straight into the slab
-				pkt = append(pkt, g.payload(id, tcpFillSize+r.Intn(3000))...)
-				kinds["q-over-fill"]++
-			case 2:
-				pkt = append(pkt, g.payload(id, tcpSmallFrame-len(pkt))...)
-				kinds["q-small-max"]++
-			}
-			sc := &vC10Script{ok: r.Intn(14) != 0, main: g.streamHops(id)}
-			if nf >= 10 && r.Intn(4) != 0 {
-				sc = &vC10Script{ok: true, main: []vC10Hop{{vC10HopWrite, g.payload(id, 200+r.Intn(700))}}}
-			}
-			if sweep {
-				pkt = pkt[:12:12]
-				copy(pkt[2:], []byte{byte(r.Intn(2)), 0, 0, 1, 0, 0, 0, 0, 0, 0})
-				pkt = append(pkt, g.payload(id, r.Intn(12))...)
-				size := 0
-				switch {
-				case i < sweepAt:
-					room := tcpDrainSize - staged - 2*(sweepAt-i) - 64*(sweepAt-i)
-					size = 32 + r.Intn(max(1, room/(sweepAt-i)))
-				case i == sweepAt:
-					size = tcpDrainSize + sweepDelta - staged - 2
-				default:
-					size = 12 + r.Intn(300)
-				}
-				if size < 2 {
-					size = 2
-				}
-				if i <= sweepAt {
-					staged += 2 + size
-				}
-				sc = &vC10Script{ok: true, main: []vC10Hop{{vC10HopWrite, g.payload(id, size)}}}
-				kinds[fmt.Sprintf("sweep-drain%+d", sweepDelta)] = 1
-			}
-			h.scripts[id] = sc
-			frames = append(frames, pkt)
-			framesCoq = append(framesCoq, vC10RLE(pkt))
-			scriptsCoq = append(scriptsCoq, fmt.Sprintf("(%d,%s)", id, sc.coq()))
-			input = binary.BigEndian.AppendUint16(input, uint16(len(pkt)))
-			input = append(input, pkt...)
-		}
-		var junk []byte
-		switch r.Intn(12) {
-		case 0:
-			junk = []byte{0}
-			kinds["junk-half-prefix"]++
-		case 1:
-			junk = []byte{0, 5, 1, 2, 3, 4, 5}
-			kinds["junk-subheader-frame"]++
-		case 2:
-			junk = append([]byte{0, 40}, g.payload(9, 17)...)
-			kinds["junk-partial-body"]++
-		case 3:
-			junk = append([]byte{0x30, 0x00}, g.payload(9, 5000)...)
-			kinds["junk-partial-large"]++
-		}
-		input = append(input, junk...)
-
-		var reads []int
-		switch r.Intn(5) {
-		case 0: // everything the kernel has, each time
-		case 1:
-			for i := 0; i < 400; i++ {
-				reads = append(reads, r.Intn(8))
-			}
-			kinds["read-dribble"]++
-		case 2:
-			for i := 0; i < 200; i++ {
-				reads = append(reads, 1+r.Intn(120))
-			}
-			kinds["read-chunks"]++
-		case 3:
-			for i := 0; i < 60; i++ {
-				reads = append(reads, []int{1, 2, 3, 13, 14, 15, 30, 4096, 9000}[r.Intn(9)])
-			}
-			kinds["read-mixed"]++
-		default:
-			// frame by frame, as a client that waits for each answer would send
-			for _, p := range frames {
-				reads = append(reads, 2+len(p))
-			}
-			kinds["read-per-frame"]++
-		}
-		if sweep {
-			reads = nil
-		}
-		var budgets []int
-		if !sweep && r.Intn(5) == 0 {
-			for i := 0; i < 1+r.Intn(6); i++ {
-				budgets = append(budgets, 0)
-			}
-			budgets = append(budgets, 1+[]int{0, 1, 2, 3, 50, 5000}[r.Intn(6)])
-			kinds["write-fails"]++
-		}
-		var arms []bool
-		if !sweep && r.Intn(7) == 0 {
-			for i := 0; i < r.Intn(8); i++ {
-				arms = append(arms, true)
-			}
-			arms = append(arms, false)
-			if r.Intn(2) == 0 {
-				arms = append(arms, false, false, false, false, false, false)
-			}
-			kinds["setdeadline-fails"]++
-		}
-		conn := &vC10Conn{in: append([]byte(nil), input...), reads: append([]int(nil), reads...), budgets: append([]int(nil), budgets...), arms: append([]bool(nil), arms...)}
-
+		var specs []*vC10ConnSpec
+		var reused []bool
 		goFail := ""
-		func() {
-			defer func() {
-				if rec := recover(); rec != nil {
-					goFail = fmt.Sprint("serveConn panicked: ", rec)
-				}
+		var prevStream *tcpStream
+		for ci := 0; ci < nconn; ci++ {
+			cs := vC10GenConn(g, h, nconn == 1, nconn > 1 && ci < nconn-1)
+			specs = append(specs, cs)
+			h.stream = nil
+			func() {
+				defer func() {
+					if rec := recover(); rec != nil {
+						goFail = fmt.Sprint("serveConn panicked: ", rec)
+					}
+				}()
+				e.register(cs.conn)
+				e.serveConn(cs.conn)
 			}()
-			e.register(conn)
-			e.serveConn(conn)
-		}()
-		if goFail == "" && !e.quiesced() {
-			goFail = "a slab token did not come home after the connection ended"
+			if goFail == "" && !e.quiesced() {
+				goFail = "a slab token did not come home after the connection ended"
+			}
+			reused = append(reused, ci > 0 && h.stream != nil && h.stream == prevStream)
+			if h.stream != nil {
+				prevStream = h.stream
+			}
+			if nconn > 1 && goFail == "" {
+				if msg := cs.foreign(); msg != "" {
+					goFail = fmt.Sprintf("connection %d of %d on one engine: %s", ci+1, nconn, msg)
+				}
+			}
 		}
 
-		var wr []string
-		total := 0
-		for _, w := range conn.writes {
-			wr = append(wr, vC10RLE(w))
-			total += len(w)
-		}
-		var armsCoq []string
-		for _, a := range arms {
-			armsCoq = append(armsCoq, vC10Bool(a))
-		}
-		kind := "conn"
-		if nf >= 10 {
-			kind = "conn-burst"
-		}
-		if sweep {
-			kind = "conn-sweep"
-		}
-		if len(budgets) > 0 {
-			kind += "-wfail"
-		}
-		if len(arms) > 0 {
-			kind += "-armfail"
-		}
-		line := map[string]any{
-			"k": kind,
-			"coq": fmt.Sprintf("CaseConn [%s] %s [%s] %s %s [%s] [%s]", strings.Join(framesCoq, ";"), vC10RLE(junk),
-				strings.Join(scriptsCoq, ";"), vC10Ints(reads), vC10Ints(budgets), strings.Join(armsCoq, ";"), strings.Join(wr, ";")),
-			"nontrivial": len(conn.writes) > 0 && nf > 1,
-			"desc":       map[string]any{"frames": nf, "input_bytes": len(input), "junk": len(junk), "kinds": kinds, "conn_writes": len(conn.writes), "bytes_out": total},
+		var line map[string]any
+		if nconn == 1 {
+			cs := specs[0]
+			kind := "conn"
+			if cs.nf >= 10 {
+				kind = "conn-burst"
+			}
+			if cs.sweep {
+				kind = "conn-sweep"
+			}
+			if len(cs.budgets) > 0 {
+				kind += "-wfail"
+			}
+			if len(cs.arms) > 0 {
+				kind += "-armfail"
+			}
+			line = map[string]any{
+				"k":          kind,
+				"coq":        "CaseConn " + cs.coqFields(),
+				"nontrivial": len(cs.conn.writes) > 0 && cs.nf > 1,
+				"desc":       map[string]any{"frames": cs.nf, "input_bytes": cs.inputLen, "junk": cs.junkLen, "kinds": cs.kinds, "conn_writes": len(cs.conn.writes), "bytes_out": cs.bytesOut()},
+			}
+		} else {
+			var recs []string
+			var descs []map[string]any
+			nreused, nfail, outConns := 0, 0, 0
+			for ci, cs := range specs {
+				recs = append(recs, fmt.Sprintf("CR %s %s", vC10Bool(reused[ci]), cs.coqFields()))
+				descs = append(descs, map[string]any{"frames": cs.nf, "input_bytes": cs.inputLen, "kinds": cs.kinds, "conn_writes": len(cs.conn.writes), "bytes_out": cs.bytesOut(), "same_stream_as_previous": reused[ci]})
+				if reused[ci] {
+					nreused++
+				}
+				if len(cs.budgets) > 0 || len(cs.arms) > 0 {
+					nfail++
+				}
+				if len(cs.conn.writes) > 0 {
+					outConns++
+				}
+			}
+			kind := fmt.Sprintf("conn-seq-%d", nconn)
+			if nfail > 0 {
+				kind += "-fail"
+			}
+			line = map[string]any{
+				"k":          kind,
+				"coq":        "CaseConnSeq [" + strings.Join(recs, ";") + "]",
+				"nontrivial": nreused > 0 && outConns > 1,
+				"desc":       map[string]any{"connections": descs, "pooled_stream_reused": nreused},
+			}
 		}
 		if goFail != "" {
 			line["go_fail"] = goFail
